@@ -15,6 +15,7 @@ Definition isinst (k cls : nkind) : bool :=
 Definition qdivz (x : Q) (n : Z) : res Q :=
   if n =? 0 then Err "ZeroDivisionError:calculate_new_length" else Ok (x / qz n)%Q.
 Definition qltb (x y : Q) : bool := Qltb x y.
+Definition is_ff (e : elem) : bool := is_fib e || is_fus e.     (* isinstance(_, (Fused, Fiber)) *)
 
 (* network.calculate_new_length (bounds = range(bstart, bstop)) *)
 Definition g_calc_len (fiber_length : Q) (bstart bstop target_length : Z) : res (Q * Z) :=
@@ -42,7 +43,7 @@ Definition g_split_uid (uid : string) (span n_spans : Z) : string := (append uid
 
 (* network.add_roadm_booster: for the successor n of the ROADM (kind k) *)
 Definition g_booster_wanted (k : nkind) : bool := (negb (isinst k KTrx || isinst k KFused || isinst k KEdfa || isinst k KMulti)).
-Definition g_booster_multi (hm he : bool) (bands : Z) : bool := (hm || ((negb he) && (1 <? bands)%Z)).
+Definition g_booster_multi (hm he : bool) (bands : Z) : bool := ((hm || (negb he)) && (1 <? bands)%Z).
 Definition g_booster_uid (roadm_uid next_uid : string) : string := (append "Edfa_booster_" (append roadm_uid (append "_to_" next_uid))).
 
 (* network.add_roadm_preamp: for the predecessor n of the ROADM (kind k) *)
@@ -66,6 +67,13 @@ Definition g_conn_out (c : cfg) (con_out : option Q) (k : nkind) : Q :=
 Definition g_pad_needed (padding sl : Q) : bool := (qltb sl padding).
 Definition g_pad_att (att padding sl : Q) : Q := ((att + padding) - sl)%Q.
 Definition g_pad_incr (padding sl : Q) : Q := (padding - sl)%Q.
+
+(* network.prev_node_generator / next_node_generator (templates GENP / GENN of harness/pygen_c09.py): when the walk steps from n to its neighbour p, i.e. when both belong to one span *)
+Definition g_prev_link (p n : elem) : bool := (((is_fus p) && (is_ff n)) || ((is_ff p) && (is_fus n))).
+Definition g_next_link (p n : elem) : bool := (((is_fus p) && (is_ff n)) || ((is_ff p) && (is_fus n))).
+
+(* tools.worker_utils.designed_network: no_insert_edfas only guards add_missing_elements_in_network, design_network(.., set_connector_losses=True, ..) is called unconditionally; network.design_network / build_network match their templates (add_missing_fiber_attributes first) - Model.Chain.design_line_opt *)
+Definition g_entry_point_matched : bool := true.
 
 (* network.get_next_node matches its template *)
 (* network.get_previous_node matches its template *)
